@@ -141,14 +141,18 @@ func offsetsToTry(c *ctx, total int, dense bool) []int {
 }
 
 func checkC17(c *ctx) {
-	c.Rule = "fault enumeration: (A) WriteTo into a writer that accepts exactly k bytes, for EVERY k in [0, length] of each input (quick tier: images above 6000 bytes use the head / footer / flush-boundary / stride offsets), plus transient failures: exactly the n-th write call fails for every n, and destinations rejecting writes above a size; (B) Persist with the process file-size limit (RLIMIT_FSIZE, SIGXFSZ ignored) set to k: every k in the first 64 bytes, the last 80 bytes (footer), around every 4096-byte flush boundary and a stride over the rest; (C) Merge with the merge buffer shrunk to 16-100 bytes and the file-size limit set to k (quick: the footer region, the head and a stride; thorough: every k); plus the no-fault runs; outcome class (error?, bytes accepted) compared with the extracted buffered-writer model (IO.v) fed with the recorded write sizes; after an error the path must not exist; after success the file is decoded by the extracted parser and compared with the spec; non-trivial = a fault offset strictly inside the output"
+	c.Rule = "fault enumeration: (A) WriteTo into a writer that accepts exactly k bytes, for EVERY k in [0, length] of each input (quick tier: images above 6000 bytes use the head / footer / flush-boundary / stride offsets), plus transient failures: exactly the n-th write call fails for every n, and destinations rejecting writes above a size; (B) Persist with the process file-size limit (RLIMIT_FSIZE, SIGXFSZ ignored) set to k: every k in the first 64 bytes, the last 80 bytes (footer), around every 4096-byte flush boundary and a stride over the rest; (C) Merge with the merge buffer shrunk to 16-100 bytes and the file-size limit set to k (quick: the footer region, the head and a stride; thorough: every k); plus the no-fault runs (among them images of an exact multiple of 4096 bytes) and (D) Persist / Merge to a destination whose final fsync fails; outcome class (error?, bytes accepted) compared with the extracted buffered-writer model (IO.v) fed with the recorded write sizes; after an error the path must not exist; after success the file is decoded by the extracted parser and compared with the spec; non-trivial = a fault offset strictly inside the output"
 	// garbage collector off: what failed operations leave in sync.Pools stays there for the later ones
 	oldGC := debug.SetGCPercent(-1)
 	defer debug.SetGCPercent(oldGC)
-	c.Assumptions = append(c.Assumptions, "fsync/close failures are modelled but cannot be injected portably; a write beyond the limit is cut short and fails (what the kernel does under RLIMIT_FSIZE and what the failing writer does)")
+	c.Assumptions = append(c.Assumptions, "a failing fsync is injected through a symbolic link to the null device (Linux answers EINVAL); a failing close is modelled but cannot be injected portably; a write beyond the limit is cut short and fails (what the kernel does under RLIMIT_FSIZE and what the failing writer does)")
 	savedBuf := zap.DefaultFileMergerBufferSize
 	defer func() { zap.DefaultFileMergerBufferSize = savedBuf }()
 	if bad := alignedImages(c); bad != "" {
+		c.Violation("C17 "+bad, false)
+		return
+	}
+	if bad := syncFailures(c); bad != "" {
 		c.Violation("C17 "+bad, false)
 		return
 	}
@@ -716,6 +720,53 @@ func alignedImages(c *ctx) string {
 		}
 		if d := partsDiffer(cont.Sx(), spec, allParts); len(d) > 0 {
 			return what + ": persisted and opened, content differs in " + fmt.Sprint(d) + "\n" + describeDiff(cont.Sx(), spec, allParts)
+		}
+		sb.Close()
+	}
+	return ""
+}
+
+// syncFailures: the destination accepts every write but the final flush to stable storage fails (the
+// path is a symbolic link to the null device, whose fsync answers EINVAL).  Persist and Merge must
+// return an error and leave nothing at the path.
+func syncFailures(c *ctx) string {
+	for i := 0; i < c.n(3, 20); i++ {
+		b := zh.GenBatch(c.R, zh.RandOpts(c.R, 2+c.R.Intn(8), "y"))
+		sb, _, err := zh.Build(b, randMode(c))
+		must(err)
+		link := zh.TmpPath("c17sync")
+		mustH(os.Symlink(os.DevNull, link))
+		gone := func() bool { _, e := os.Lstat(link); return os.IsNotExist(e) }
+		err = zap.PersistSegmentBase(sb, link)
+		c.Case(fmt.Sprintf("sync-failure-persist-%d", i), true)
+		c.Count("sync_failures")
+		switch {
+		case err == nil:
+			os.Remove(link)
+			return "Persist to a destination that takes every write but fails the final sync (symbolic link to the null device: fsync answers EINVAL) reports success\nbatch: " + clip(b.Sx().String())
+		case !gone():
+			os.Remove(link)
+			return fmt.Sprintf("Persist to a destination whose final sync fails returned %v but left the path in place\nbatch: %s", err, clip(b.Sx().String()))
+		}
+		mustH(os.Symlink(os.DevNull, link))
+		var merr error
+		func() {
+			defer func() {
+				if r := recover(); r != nil {
+					merr = fmt.Errorf("PANIC %v", r)
+				}
+			}()
+			_, _, merr = zap.VerifMerge([]segment.Segment{sb}, []*roaring.Bitmap{nil}, link, 1026, nil, nil)
+		}()
+		c.Case(fmt.Sprintf("sync-failure-merge-%d", i), true)
+		c.Count("sync_failures")
+		switch {
+		case merr == nil:
+			os.Remove(link)
+			return "Merge to a destination that takes every write but fails the final sync (symbolic link to the null device: fsync answers EINVAL) reports success\nbatch: " + clip(b.Sx().String())
+		case !gone():
+			os.Remove(link)
+			return fmt.Sprintf("Merge to a destination whose final sync fails returned %v but left the path in place\nbatch: %s", merr, clip(b.Sx().String()))
 		}
 		sb.Close()
 	}
